@@ -15,6 +15,9 @@ pub struct SimLogStore {
     pub boundary: Mutex<Option<LogId>>,
     /// journal of store calls, for probes that look at the IO thread's behaviour
     pub journal: Mutex<Vec<String>>,
+    /// one-shot gate: when armed, the next flush() (called on the log's IO thread) reports that it was entered and
+    /// blocks until released, so that a probe can place Raft-thread steps inside the IO thread's persist-then-fsync window
+    pub flush_gate: Mutex<Option<(std::sync::mpsc::Sender<()>, std::sync::mpsc::Receiver<()>)>>,
 }
 
 #[async_trait]
@@ -51,6 +54,11 @@ impl LogStore for SimLogStore {
     }
     fn flush(&self) -> std::result::Result<(), Error> {
         self.journal.lock().unwrap().push("flush".into());
+        let gate = self.flush_gate.lock().unwrap().take();
+        if let Some((entered, release)) = gate {
+            let _ = entered.send(());
+            let _ = release.recv_timeout(std::time::Duration::from_secs(5));
+        }
         Ok(())
     }
     async fn reset(&self) -> std::result::Result<(), Error> {
